@@ -57,6 +57,9 @@ def rand_history(rng: random.Random, n: int):
             la, r, dst = ("L3" if which == "L3" else la), ("R2" if which == "R2" else r), ("D1" if which == "D1" else dst)
         else:
             calls.append(["compile", None])
+            if rng.random() < 0.4:
+                # ... and straight afterwards one element is stepped again with the OTHER parameters and the network compiled again
+                calls += [["step", rng.choice(stateful), "", "P2" if main == "P1" else "P1", "O0"], ["compile", None]]
     calls.append(["compile", None])
     return calls
 
@@ -84,6 +87,12 @@ def _record(args):
         obs.append(o)
         done.append(c)
     rec = {"id": tid, "kind": kind, "calls": done, "obs": obs}
+    if last is not None and last[0] == "function":
+        try:
+            ev = liferun.eval_by_name(w, w.F)
+            rec["final_eval"] = None if ev is None else [[n, [float(z) for z in x]] for n, x in ev]
+        except BaseException:  # noqa: BLE001
+            rec["final_eval"] = None
     if want_dyn is not None and last is not None and last[0] == "function":
         rec["dyn"] = liferun.dyn_record(w, {"h": done, "lastpar": [want_dyn[0], want_dyn[1], ""]}, kind)
         rec["dyn"]["id"] = "lifetrace-" + tid
@@ -150,5 +159,28 @@ def run(pid: str, tier: str) -> dict:
                 viol.append({"signature": f"{pid}|function does not reflect the most recent step|{r['id']}",
                              "summary": f"function compiled at the end of recorded history {r['id']} differs from the step with the most recent parameters: {json.dumps(bad[:3])}",
                              "payload": {"kind": "lifetrace", "record": r["id"], "fails": bad[:10]}})
+    # compiling is an observation (the model's compile leaves the state unchanged): the function at the end of a recorded
+    # history that compiled before must be the function of the same history without the earlier compilations
+    nobs = 0
+    if pid == "C19":
+        import math
+        cand = [(t, [c for c in t["calls"][:-1] if c[0] != "compile"] + [t["calls"][-1]]) for t in traces
+                if t.get("final_eval") and not verdicts[t["id"]]["fails"] and any(c[0] == "compile" for c in t["calls"][:-1])]
+        if cand:
+            with ctx.Pool(min(NCPU, 12)) as pool:
+                twins = pool.map(_record, [(t["id"] + "-nocompile", t["kind"], calls, None) for t, calls in cand], chunksize=4)
+            for (t, calls), tw in zip(cand, twins):
+                if not tw.get("final_eval"):
+                    continue
+                nobs += 1
+                a, b = t["final_eval"], tw["final_eval"]
+                same = [n for n, _ in a] == [n for n, _ in b] and all(
+                    len(x) == len(y) and all((math.isnan(p_) and math.isnan(q_)) or abs(p_ - q_) <= 1e-9 * max(1.0, abs(p_), abs(q_)) for p_, q_ in zip(x, y))
+                    for (_, x), (_, y) in zip(a, b))
+                if not same:
+                    viol.append({"signature": f"{pid}|function differs from the same history without earlier compilations|{t['id']}",
+                                 "summary": f"recorded history {t['id']} ({t['kind']}): the function compiled last differs from the function of the same history "
+                                            f"without the earlier compilations (it does not reflect the most recent step); history {json.dumps(t['calls'])[:300]}",
+                                 "payload": {"kind": "lifetrace", "trace": {"id": t["id"], "kind": t["kind"], "calls": t["calls"]}, "clause": "c19.compile_is_observation"}})
     return {"violations": viol, "states": states, "traces": len(traces), "calls": sum(len(t["calls"]) for t in traces),
-            "numeric": nnum, "samples": [{"recorded_lifecycle_history": traces[0]["calls"][:10]}]}
+            "compile_is_observation_pairs": nobs, "numeric": nnum, "samples": [{"recorded_lifecycle_history": traces[0]["calls"][:10]}]}
